@@ -4367,13 +4367,20 @@ static Value eval_statement(ASTNode *stmt, Environment *env) {
         }
 
         case AST_BLOCK: {
+            /* Variables declared in the block go out of scope with it (as the loop variable of
+             * `for` does below): a `let` that shadows an outer name must not replace it for the
+             * code after the block. */
+            int block_symbol_base = env->symbol_count;
             Value result = create_void();
             for (int i = 0; i < stmt->as.block.count; i++) {
                 result = eval_statement(stmt->as.block.statements[i], env);
                 /* If statement returned a value, propagate it immediately */
                 if (result.is_return || result.is_break || result.is_continue) {
-                    return result;
+                    break;
                 }
+            }
+            if (env->symbol_count > block_symbol_base) {
+                env->symbol_count = block_symbol_base;
             }
             return result;
         }
